@@ -55,6 +55,11 @@ type Outer struct {
 	NilM   map[string]int
 }
 
+// c06Boom: a method that dereferences its (nil) receiver - a Go run-time error, not an error Jet raises
+type c06Boom struct{ Name string }
+
+func (b *c06Boom) BoomM() c06Boom { return c06Boom{Name: b.Name + "!"} }
+
 func (Outer) ValM() string  { return "outer.ValM" }
 func (*Outer) PtrM() string { return "outer.PtrM" }
 
@@ -107,6 +112,7 @@ type c06Vec struct {
 	IsSet      bool                       `json:"isset"`
 	KeyPresent string                     `json:"keypresent"`
 	Catalogue  map[string]json.RawMessage `json:"catalogue"`
+	Hostile    []string                   `json:"hostile"`
 }
 
 func c06Expr(v *c06Vec) string {
@@ -148,6 +154,9 @@ func c06Init() {
 	// a global of the same name as the Execute variable every path starts from: the variable always shadows it,
 	// also when its value is nil
 	c06Set.AddGlobal("root", "GLOBAL-ROOT")
+	c06Set.AddGlobal("imap", map[interface{}]string{"a": "b"})
+	c06Set.AddGlobal("gzero", 0)
+	c06Set.AddGlobal("pnil", (*c06Boom)(nil))
 	c06RootVals = c06Roots()
 }
 
@@ -194,7 +203,17 @@ func c06Replay(i int, raw json.RawMessage) Result {
 		if why := c06SelfCheck(v.Catalogue); why != "" {
 			return Result{Detail: "harness: Go catalogue does not mirror spec/JetAccess.tla: " + why}
 		}
-		return Result{OK: true}
+		for _, h := range v.Hostile {
+			for _, form := range []string{"{{ isset(" + h + ") }}", "{{ isset(root, " + h + ") }}", "{{ if isset(" + h + ") }}true{{ else }}false{{ end }}"} {
+				out, err := c06Render(form, "outer")
+				if err != nil || out != "false" {
+					sig := map[string]interface{}{"kind": "isset-hostile", "root": "outer", "expect": "false", "laststep": "", "lastname": h}
+					return Result{Sig: sig, Key: "hostile:" + h, Observed: map[string]interface{}{"out": out, "err": fmt.Sprint(err)}, Expected: "false",
+						Detail: fmt.Sprintf("%s rendered %q (err %v): isset never fails and an argument that cannot be evaluated is not set", form, out, err)}
+				}
+			}
+		}
+		return Result{OK: true, Key: "hostile"}
 	}
 	expr := c06Expr(&v)
 	key := v.Root + ":" + expr
